@@ -15,6 +15,8 @@ import traceback
 from . import sut
 
 VERIF = sut.VERIF
+# audits of seeded changes (tools/intake_seed.py, tools/try_mutant.py) redirect evidence and replay files away from /verif
+OUT = os.environ.get("VERIF_OUT_DIR") or VERIF
 CASE_TIMEOUT_S = int(os.environ.get("VERIF_CASE_TIMEOUT", "60"))
 MAX_CONFIRM = 6
 WORKERS = int(os.environ.get("VERIF_WORKERS", str(min(16, os.cpu_count() or 4))))
@@ -103,7 +105,7 @@ def fresh_eval(pid, case, root):
 
 
 def write_replay(mod, case, res, tier, seed, note=""):
-    d = os.path.join(VERIF, "replay", mod.ID)
+    d = os.path.join(OUT, "replay", mod.ID)
     os.makedirs(d, exist_ok=True)
     path = os.path.join(d, jhash(case)[:16] + ".json")
     snippet = mod.snippet(case) if hasattr(mod, "snippet") else ""
@@ -115,10 +117,10 @@ def write_replay(mod, case, res, tier, seed, note=""):
 
 
 def write_evidence(mod, tier, seed, cov, wall, violations, assumptions):
-    os.makedirs(os.path.join(VERIF, "evidence"), exist_ok=True)
+    os.makedirs(os.path.join(OUT, "evidence"), exist_ok=True)
     ev = {"property_id": mod.ID, "tier": tier, "seed": seed, "level": mod.LEVEL, "coverage": cov,
           "assumptions": assumptions, "wall_s": round(wall, 2), "violations": violations}
-    with open(os.path.join(VERIF, "evidence", mod.ID + ".json"), "w") as f:
+    with open(os.path.join(OUT, "evidence", mod.ID + ".json"), "w") as f:
         json.dump(ev, f, indent=1, default=str)
 
 
